@@ -16,13 +16,16 @@ def main(argv):
     from mon.ctx import Ctx
     ctx = Ctx(prop, tier, int(seed), int(shard), int(nshards), float(budget))
     mod = importlib.import_module('mon.checks.' + prop.lower())
-    wanted = getattr(mod, 'MONITORS', ('boundary', 'tape', 'telemetry'))
+    wanted = getattr(mod, 'MONITORS', ('boundary', 'tape', 'telemetry', 'contracts'))
     attached = {}
     try:
         import pybufrkit  # noqa: F401  (the tree under test must import)
-        from mon.monitors import tape, boundary, telemetry
+        from mon.monitors import tape, boundary, telemetry, contracts
         if 'telemetry' in wanted:
             attached['telemetry'] = telemetry.attach()
+        if 'contracts' in wanted:
+            # before the boundary recorder: icontract needs the real signatures
+            attached['contracts'] = contracts.attach()
         if 'boundary' in wanted:
             attached['boundary'] = boundary.attach()
         if 'tape' in wanted:
@@ -46,6 +49,11 @@ def main(argv):
         from mon.monitors import tape, boundary, telemetry
         ctx.monitor['tape'] = tape.stats()
         ctx.monitor['boundary'] = boundary.stats()
+        from mon.monitors import contracts
+        ctx.monitor['contracts'] = contracts.stats()
+        for name, nb in contracts.breaks.items():
+            ctx.violate('contract/' + name, 'icontract post-condition on %s broken %d time(s); first: %s'
+                        % (name, nb, contracts.first_breaks.get(name)), dict(contract=name), advisory=True)
         anchors = getattr(mod, 'anchors', None)
         if anchors and telemetry.STATE['attached']:
             ctx.monitor['reach'] = telemetry.reach(anchors())
